@@ -78,7 +78,10 @@ def check(sess: Session, module: str, functions, allowed=()):
             sess.unsupported(str(ex))
             continue
         w = [x for x in writes_of(fn, mod_names) if not any(a in x[1] for a in allowed)]
-        sess.check("frame", [], z3.BoolVal(not w), fn.lineno, label=f"{module}:{name} writes no module-level state" + (f" -- {w[0][1]} at L{w[0][0]}" if w else ""))
+        ob = sess.check("frame", [], z3.BoolVal(not w), 0, label=f"{module}:{name} writes no module-level state")
+        if w:
+            ob.detail = "; ".join(f"{d} at L{ln}" for ln, d in w[:4])
+            ob.formula = ob.detail
 
 
 def target(prop_modules, title="purity"):
